@@ -89,6 +89,8 @@ def showLoopOut (s' : CState) : LoopOut → String
 def step (st : St) (args : List String) : St × String :=
   match args with
   | ["init"] => (some CState.init, "ok")
+  | ["init", _] => (some CState.init, "ok")
+  | ["move", _] => (st, if st.isSome then "ok" else "bad-op")
   | ["loop"] => (st, if st.isSome then "ok" else "bad-op")
   | ["stop"] => (st, if st.isSome then "stopped" else "bad-op")
   | "cycle" :: rest =>
